@@ -19,7 +19,7 @@ ALPHA = ['a', "'", '-', '\n', '\r', '\x00', 'é', '"', ' ']
 STRINGS = [''] + ALPHA + [x + y for x in ALPHA for y in ALPHA] + \
     ["--'", "a''b", "'); DROP", "/* c */", "it's -- not a comment\n", '中文', "'''", "\\'", "\\"]
 INTS = [0, 1, -1, 2 ** 64 + 1, -2 ** 70, 10 ** 30, 7]
-REALS = [0.0, -1.5, 1e10, 0.1234564, 123456789.125, -0.0000004, 2.5e15, 1.0 / 3]
+REALS = [0.0, -1.5, 1e10, 0.1234564, 123456789.125, -0.0000004, 2.5e15, 1.0 / 3, 1e16, 5e-05, 1.5e300, -2.5e22]
 BOOLS = [False, True]
 IDS = [0, 1, 2, 2 ** 128 - 1, 2 ** 64, 0x12345678123456781234567812345678]
 POOLS = {'s': STRINGS, 'i': INTS, 'r': REALS, 'b': BOOLS, 'u': IDS, 'unset': list(range(32))}
